@@ -262,6 +262,18 @@ def _gen_pl(rng, n):
                     known = [9]      # ops on a non-existent worker are no-ops on both sides
                 ops.append("sy%d:%s" % (rng.random() < 0.3, "/".join(
                     "%d.%d.%s.%d" % (x, rng.choice([1, 1, 2]), rng.choice("nnrhd"), rng.random() < 0.5) for x in listed) or "-"))
+            elif r < 0.73:
+                # the real getInstancesAndSync: the cloud answers the list, fails, or rate-limits
+                mode = rng.choice("kker")
+                listed = [x for x in known if x in inflight or rng.random() < 0.7] if mode == "k" else []
+                if mode == "k":
+                    for new in (6, 7):
+                        if new not in known and rng.random() < 0.3:
+                            listed.append(new)
+                            known.append(new)
+                    known = [x for x in known if x in listed] or [9]
+                ops.append("gs%s:%d:%s" % (mode, rng.random() < 0.3, "/".join(
+                    "%d.%d.%s.%d" % (x, rng.choice([1, 1, 2]), rng.choice("nnrhd"), rng.random() < 0.5) for x in listed) or "-"))
             elif r < 0.80:
                 ops.append("pb%d:%d" % (w, rng.random() < 0.2))
                 inflight.add(w)
@@ -269,8 +281,13 @@ def _gen_pl(rng, n):
                 ops.append("pm%d:%d" % (w, rng.random() < 0.7))
             else:
                 us = rng.sample([1, 2, 3, 4, 5], rng.choice([0, 0, 1, 1, 2]))
-                ops.append("pa%d:%d:%d:%d:%s" % (w, rng.random() < 0.85, rng.random() < 0.15, rng.random() < 0.3,
-                                                 "/".join(map(str, us)) or "-"))
+                pa = "pa%d:%d:%d:%d:%s" % (w, rng.random() < 0.85, rng.random() < 0.25, rng.random() < 0.3,
+                                             "/".join(map(str, us)) or "-")
+                if rng.random() < 0.6:
+                    # layout of the answer: "broken" last / first / in the middle; stale run locks
+                    st = [x for x in [1, 2, 3, 4, 5] if x not in us and rng.random() < 0.15]
+                    pa += ":%d:%s" % (rng.choice([0, 1, 1, 2]), "/".join(map(str, st)) or "-")
+                ops.append(pa)
                 inflight.discard(w)
         ops.append("rn")
         out.append("pl %s %s %s" % (",".join(ws), ",".join(ex) or "-", ",".join(ops)))
@@ -330,7 +347,9 @@ def _gen_pl_truthful(rng, n):
                 ops.append("pb%d:0" % w)
                 probing[w] = list(alive[w])
             elif w in probing:
-                ops.append("pa%d:1:0:0:%s" % (w, "/".join(map(str, probing.pop(w))) or "-"))
+                # a truthful VM may also report "broken" (anywhere in its answer) -- its processes still run
+                ops.append("pa%d:1:%d:0:%s:%d:-" % (w, rng.random() < 0.3, "/".join(map(str, probing.pop(w))) or "-",
+                                                     rng.choice([0, 1, 2])))
             else:
                 ops.append("rn")
         for w in sorted(probing):
@@ -422,6 +441,8 @@ def _gen_e2e(rng, tier):
             # a long `crunch-run --detach` keeps containers Locked with a live process for a while, so that
             # restarts meet stale locks whose processes survive
             "detach": rng.choice([0, 0, 60, 150]),
+            # the cloud rate-limits Instances() calls that come sooner than this after the previous one
+            "ratelimit": rng.choice([0, 0, 0, 25, 60]),
         }
         out.append("e2e " + " ".join("%s=%d" % kv for kv in p.items()))
     return out
@@ -611,6 +632,12 @@ def _oracle_pl(f, impl):
     parts = impl.split(";")
     if len(parts) != 3:
         return "driver could not observe the pool: " + impl[:200]
+    # a worker may only be dropped on the strength of an instance list the cloud actually returned
+    gs_ops = [o for o in _split(f[3]) if o[:2] in ("st", "kl", "rn", "gs")]
+    for o, tok in zip(gs_ops, _split(parts[0])):
+        if o.startswith("gs") and o[2] in "er" and tok != "d-":
+            return (f"worker(s) {tok[1:]} were dropped from the pool although the cloud did not return an instance "
+                    f"list ({'rate-limit' if o[2] == 'r' else 'API'} error): their processes are forgotten")
     for tok in _split(parts[0]):
         m = re.fullmatch(r"w(\d+)([UBIRS])([rhd])", tok)
         if m and (m.group(2) != "I" or m.group(3) != "r"):
@@ -623,7 +650,7 @@ def _oracle_pl(f, impl):
         # must be reported by Running() as alive (no exit time), otherwise the scheduler would requeue or
         # restart it while it runs
         launched = {int(o[2:]) for o in ops if o.startswith("sd")}
-        started = {int(o[2:].split(":")[1]) for o, t in zip([o for o in ops if o[:2] in ("st", "kl", "rn")], toks)
+        started = {int(o[2:].split(":")[1]) for o, t in zip([o for o in ops if o[:2] in ("st", "kl", "rn", "gs")], toks)
                    if o.startswith("st") and t != "w0"}
         live = launched & started
         last = toks[-1]
